@@ -165,6 +165,28 @@ def reify(e):
     return Reifier(lambda s: int(str(s)[1:]), lambda u: -2).reify(e)
 
 
+TRIG_SPEC = {'sec': (0, 'cos'), 'csc': (0, 'sin'), 'cot': (0, 'tan'), 'sech': (0, 'cosh'), 'csch': (0, 'sinh'),
+             'coth': (0, 'tanh'), 'asec': (1, 'acos'), 'acsc': (1, 'asin'), 'acot': (1, 'atan'), 'asech': (1, 'acosh'),
+             'acsch': (1, 'asinh'), 'acoth': (1, 'atanh')}
+
+
+def py_rewrite(t, top=True):
+    """the plain form of the trig rewriting pass (no re-evaluation of anything): f(a) -> 1/g(a) or g(1/a)"""
+    if top and t[0] in (9, 10, 11, 12):
+        return t                      # doprint only rewrites sympy.Expr inputs
+    k = t[0]
+    if k in (0, 1, 2, 3, 8, 11, 12):
+        return t
+    if k == 13:
+        return [13] + [[py_rewrite(a[0], False), py_rewrite(a[1], False)] for a in t[1:]]
+    u = [x if isinstance(x, int) else py_rewrite(x, False) for x in t]
+    if k == 7 and len(u) == 3 and bridge.FN_NAMES.get(u[1]) in TRIG_SPEC:
+        sh, g = TRIG_SPEC[bridge.FN_NAMES[u[1]]]
+        m1 = [0, 0, Fraction(-1)]
+        return [6, [7, bridge.FN_IDS[g], u[2]], m1] if sh == 0 else [7, bridge.FN_IDS[g], [6, u[2], m1]]
+    return u
+
+
 def keep_coeff_nonplain(expr):
     """modelling assumption of PyPrinter.v: _keep_coeff(-c, rest) is the plain product (-c) * rest.
     Returns the (reified) results of _keep_coeff where it is not: SymPy re-evaluated the remainder."""
@@ -174,7 +196,11 @@ def keep_coeff_nonplain(expr):
     for m in sympy.preorder_traversal(expr):
         if isinstance(m, sympy.Mul):
             c, e = m.as_coeff_Mul()
-            if c.is_Number and c < 0 and -c is not sympy.S.One:
+            try:
+                neg = c.is_Number and c < 0 and -c is not sympy.S.One
+            except TypeError:      # zoo / nan coefficient: not comparable (the printer's own `c < 0` raises too)
+                continue
+            if neg:
                 res = _keep_coeff(-c, e)
                 want = (-c,) + tuple(sympy.Mul.make_args(e))
                 if not (isinstance(res, sympy.Mul) and res.args == want):
@@ -258,7 +284,9 @@ def ev(t, env, st):
             raise Undef()
     if k == 9:
         a, b = ev(t[2], env, st), ev(t[3], env, st)
-        if a != b and abs(a - b) <= 1e-9 * max(1.0, st['scale']):
+        if isinstance(a, bool) or isinstance(b, bool):
+            raise Undef()     # ill-sorted: a relation between truth values has no meaning here
+        if abs(a - b) <= 1e-9 * max(1.0, st['scale']):
             raise Undef()     # too close to call in floating point
         return [a == b, a != b, a < b, a <= b, a > b, a >= b][t[1]]
     if k == 10:
@@ -285,6 +313,20 @@ def ev(t, env, st):
                 return ev(e, env, st)
         raise Undef()
     raise Undef()
+
+
+def well_sorted(t):
+    """numbers where numbers are expected, truth values where truth values are expected (the property's scope)"""
+    k = t[0]
+    if k in (4, 5, 6, 7, 9):
+        ch = t[2:] if k in (7, 9) else t[1:]
+        return all(c[0] not in (9, 10, 11, 12) and well_sorted(c) for c in ch)
+    if k == 10:
+        return all(c[0] in (9, 10, 11, 12) and well_sorted(c) for c in t[2:])
+    if k == 13:
+        return all(a[0][0] not in (9, 10, 11, 12) and well_sorted(a[0]) and a[1][0] in (9, 10, 11, 12) and well_sorted(a[1])
+                   for a in t[1:])
+    return True
 
 
 def has_factorial(t):
@@ -345,6 +387,8 @@ def work(case):
     import sympy
     from sympy.codegen.rewriting import optimize
     from cellmlmanip.printer import Printer
+    import warnings
+    warnings.simplefilter('ignore')
     out = {'status': 'ok'}
     try:
         syms = _symbols()
@@ -356,26 +400,48 @@ def work(case):
         if any(s[0] == 0 and (s[2].numerator.bit_length() > 400 or s[2].denominator.bit_length() > 400) for s in subtrees(tree)):
             return {'status': 'invalid', 'why': 'huge number after SymPy evaluation'}
         out['tree'] = to_json(tree)
-        out['sympy'] = sympy.srepr(expr)[:300]
+        try:
+            out['sympy'] = sympy.srepr(expr)[:300]
+        except Exception:
+            out['sympy'] = 'tree %s' % json.dumps(out['tree'])[:300]
         pr = Printer()
+        out['opt_err'] = out['kc_err'] = None
+        target = expr
         try:
             if isinstance(expr, sympy.Expr):
-                opt = optimize(expr, pr._optims)
-                out['opt'] = to_json(reify(opt))
-                out['kc'] = keep_coeff_nonplain(opt)
+                target = optimize(expr, pr._optims)
+                topt = reify(target)
+                if any(s[0] == 0 and (s[2].numerator.bit_length() > 400 or s[2].denominator.bit_length() > 400) for s in subtrees(topt)):
+                    return {'status': 'invalid', 'why': 'huge number after SymPy evaluation'}
+                out['opt'] = to_json(topt)
             else:
                 out['opt'] = out['tree']
-                out['kc'] = keep_coeff_nonplain(expr) if isinstance(expr, sympy.Basic) else []
         except Exception as e:
             out['opt'] = None
+            out['opt_err'] = type(e).__name__
+        out['rw_plain'] = out['opt'] is not None and to_json(py_rewrite(tree)) == out['opt']
+        if out['opt'] is None:
             out['kc'] = [[1, 4]]
+        else:
+            try:
+                out['kc'] = keep_coeff_nonplain(target) if isinstance(target, sympy.Basic) else []
+            except Exception as e:
+                out['kc'] = [[1, 4]]
+                out['kc_err'] = type(e).__name__
         out['plain'] = not out['kc']
+        try:      # `-expr.exp is S.One / S.Half` in _bracket / _print_Pow evaluates an unevaluated numeric exponent
+            for q in (sympy.preorder_traversal(target) if isinstance(target, sympy.Basic) else []):
+                if isinstance(q, sympy.Pow) and not q.exp.is_Number and ((-q.exp) is sympy.S.One or (-q.exp) is sympy.S.Half):
+                    out['plain'] = False
+        except Exception:
+            out['plain'] = False
         try:
             s = pr.doprint(expr)
             out['impl'] = ['ok', s]
         except Exception as e:
             out['impl'] = ['err', vlib.err_class(e), str(e)[:200]]
-        if out['impl'][0] == 'ok':
+        out['sorted'] = well_sorted(tree)
+        if out['impl'][0] == 'ok' and out['sorted']:
             out['oracle'], out['npts'] = oracle(json.dumps(case['tree']), tree, out['impl'][1])
         else:
             out['oracle'], out['npts'] = [], 0
@@ -385,153 +451,22 @@ def work(case):
         return {'status': 'harness', 'why': traceback.format_exc()[-800:]}
 
 
-# ---- python twins of the Coq guard [printable] (Model/PyPrinter.v) ------------------------------------------------
-def _is_num(t, kinds=(0, 1, 2)):
-    return t[0] == 0 and t[1] in kinds
-
-
+# ---- python twin of the Coq guard [printable] (Model/PyPrinter.v): supported constructs, well-sorted ------------------------------------------------
 def _numv(t):
     return Fraction(t[2][0], t[2][1]) if isinstance(t[2], list) else t[2]
 
 
-def _is_exp(t, kind, val):
-    return t[0] == 0 and t[1] == kind and _numv(t) == val
-
-
-def _special_exp(x):
-    return _is_exp(x, 1, Fraction(1, 2)) or _is_exp(x, 1, Fraction(-1, 2)) or _is_exp(x, 0, -1)
-
-
-def _prec(t):
-    k = t[0]
-    if k == 0:
-        return 40 if _numv(t) < 0 else (50 if t[1] == 1 else 1000)
-    if k == 1:
-        return 40 if t[1] == 3 else 1000
-    if k == 4:
-        return 40
-    if k == 5:
-        return 40 if (t[1][0] == 0 and _numv(t[1]) < 0) else 50
-    if k == 6:
-        return 60
-    if k == 7:
-        return 50 if t[1] == 42 else (1000 if t[1] in (40, 41) else 70)
-    if k == 9:
-        return 50 if t[1] in (0, 1) else 35
-    if k == 10:
-        return {0: 30, 1: 20, 2: 10}.get(t[1], 100)
-    if k == 13:
-        return 70
-    return 1000
-
-
-def _eprec(t):
-    if t[0] == 6:
-        return 59 if (_is_exp(t[2], 1, Fraction(-1, 2)) or _is_exp(t[2], 0, -1)) else 60
-    return _prec(t)
-
-
-def _mul_split(t):
-    """(sign, my_prec, items) or None (unmodelled) -- twin of mul_split"""
-    l = t[1:]
-    h = l[0]
-    if h[0] == 0:
-        c = _numv(h)
-        if c < 0:
-            rest = l[1:]
-            if h[1] == 0 and c == -1:
-                if len(rest) == 1 and rest[0][0] == 5:
-                    return True, _prec(rest[0]), rest[0][1:]
-                if len(rest) == 1:
-                    return True, _prec(rest[0]), rest
-                return True, _prec([5] + rest), rest
-            if len(rest) == 1 and rest[0][0] == 5:
-                rest = rest[0][1:]
-            if not rest or rest[0][0] == 0:
-                return None
-            return True, 50, [[0, h[1], -c]] + rest
-        return False, 50, l
-    return False, _prec(t), l
-
-
-def _dens(items):
-    b = []
-    for it in items:
-        if it[0] == 6 and _is_num(it[2], (0, 1)) and _numv(it[2]) < 0:
-            if _is_exp(it[2], 0, -1):
-                b.append((it[1], it[1][0] == 5))
-            else:
-                b.append(([6, it[1], [0, it[2][1], -_numv(it[2])]], False))
-        elif _is_num(it, (0, 1)):
-            if _numv(it).denominator != 1:
-                b.append(([0, 0, Fraction(_numv(it).denominator)], False))
-    return b
-
-
-def pow_base_is_pow_node(t):
-    return t[0] == 6 and t[1][0] == 6 and not _special_exp(t[1][2])
-
-
-def neg_one_times_sum_node(t):
-    if t[0] != 5:
-        return False
-    sp = _mul_split(t)
-    return sp is not None and sp[1] < 50
-
-
-def single_denominator_is_quotient_node(t):
-    if t[0] != 5:
-        return False
-    sp = _mul_split(t)
-    if sp is None:
-        return False
-    b = _dens(sp[2])
-    return len(b) == 1 and not b[0][1] and sp[1] <= _eprec(b[0][0]) < 60
-
-
-def _printed_tree(case):
-    d = case.get('detail', case)
-    t = d.get('opt') or d.get('tree')
-    return to_bridge(t) if t is not None else None
-
-
-def _kc_trees(case):
-    return [to_bridge(t) for t in case.get('detail', case).get('kc', [])]
-
-
-def _any_node(case, pred):
-    t = _printed_tree(case)
-    return any(pred(s) for u in ([t] if t is not None else []) + _kc_trees(case) for s in subtrees(u))
-
-
-def pow_base_is_pow(case):
-    """F10a: a power whose base is itself printed as a power: (x**y)**z is emitted as x**y**z"""
-    return _any_node(case, pow_base_is_pow_node)
-
-
-def neg_one_times_sum(case):
-    """F10b: a product -1 * e where e is a sum or a product with negative leading number (unevaluated forms):
-    the Mul precedence is taken after the sign is stripped, so e is not bracketed.  Also: a negative coefficient that
-    _keep_coeff multiplies into a negative leading number of the remainder (-2 * (-2 * (x + y)) -> --4 * x + y)"""
-    return _any_node(case, neg_one_times_sum_node) or any(_prec(t) < 50 for t in _kc_trees(case))
-
-
 def rewrite_pass_raises(case):
-    """F18: optimize(expr, _optims) itself raises (SymPy re-evaluating the ancestors of a rewritten trig node)"""
+    """F18: a SymPy operation the printer applies to its (unevaluated) input re-evaluates it: optimize(expr, _optims)
+    on a tree with a secondary trig function raises or returns something else than the plain rewriting (SymPy
+    re-evaluated the ancestors), or _keep_coeff(-c, rest) in _print_Mul raises"""
     d = case.get('detail', case)
     t = d.get('tree')
-    return d.get('opt') is None and t is not None and any(
-        s[0] == 7 and bridge.FN_NAMES.get(s[1]) in TRIG2 for s in subtrees(to_bridge(t)))
+    trig = t is not None and any(s[0] == 7 and bridge.FN_NAMES.get(s[1]) in TRIG2 for s in subtrees(to_bridge(t)))
+    return bool(trig and (d.get('opt_err') or not d.get('rw_plain', True))) or bool(d.get('kc_err'))
 
 
-def single_denominator_is_quotient(case):
-    """F17: a product whose only denominator prints as a quotient (1 / y, 1 / sqrt(y), p / q) without brackets"""
-    return _any_node(case, single_denominator_is_quotient_node)
-
-
-KNOWN_PREDICATES = {'pow_base_is_pow': pow_base_is_pow, 'neg_one_times_sum': neg_one_times_sum,
-                    'single_denominator_is_quotient': single_denominator_is_quotient,
-                    'rewrite_pass_raises': rewrite_pass_raises}
+KNOWN_PREDICATES = {'rewrite_pass_raises': rewrite_pass_raises}
 
 
 def _isbool(t):
@@ -556,13 +491,7 @@ def py_printable(t):
     if k == 10:
         return all(_isbool(a) and py_printable(a) for a in t[2:])
     ch = t[2:] if k in (7, 9) else t[1:]
-    if not all((not _isbool(a)) and py_printable(a) for a in ch):
-        return False
-    if k == 6:
-        return not pow_base_is_pow_node(t)
-    if k == 5:
-        return not neg_one_times_sum_node(t) and not single_denominator_is_quotient_node(t)
-    return True
+    return all((not _isbool(a)) and py_printable(a) for a in ch)
 
 
 # ---- model output decoding -------------------------------------------------------------------------------------
@@ -682,6 +611,8 @@ def children():
         Fn('sin', x), Fn('Abs', x), Fn('Abs', Mul(I(-1), x)), Fn('sec', x), Fn('acot', x), Fn('exp', Mul(I(-1), x)),
         Fn('atan2', x, y), Fn('log', x, I(2)), [1, 0], [1, 1],
         Pw((x, Rel(2, x, y)), (y, TRUE)), Pw((x, Rel(2, x, y)), (y, Rel(0, y, W))),
+        # ill-sorted children (a truth value where a number is expected): only the bracketing decisions are compared
+        Rel(2, x, y), Rel(0, x, y), And(Rel(2, x, y), Rel(4, y, W)), Or(Rel(2, x, y), Rel(4, y, W)),
     ]
     return c
 
@@ -805,7 +736,7 @@ def gen_cases(seed, tier, extra=0):
         for evf in (False, True):
             cases.append({'tree': t, 'ev': evf, 'kind': 'function'})
     rng = random.Random(seed * 1000003 + 11 + extra)
-    n = (3000 if tier == 'quick' else 30000) * (4 if extra else 1)
+    n = (3000 if tier == 'quick' else 150000) * (4 if extra and tier == 'quick' else 1)
     for i in range(n):
         depth = rng.choice([2, 3, 3, 4])
         t = rand_tree(rng, depth, boolean=rng.random() < 0.15)
@@ -834,7 +765,10 @@ def evaluate(ctx, cases, results, use_model=True):
         for i, m in zip(idx, first):
             mods[i] = m
             r = results[i]
-            r['rewrite_plain'] = (r['opt'] is not None and to_json_from_model(m[5]) == r['opt'])
+            r['rewrite_plain'] = r['rw_plain']
+            if to_json_from_model(m[5]) != to_json(py_rewrite(to_bridge(r['tree']))):
+                ctx.tie_break('rewriting pass of the model (PyPrinter.rewrite, generated _extra_trig) differs from its specification twin',
+                              {'case': cases[i], 'detail': {'tree': r['tree'], 'model': to_json_from_model(m[5])}})
             if not r['rewrite_plain'] and r['opt'] is not None:
                 redo.append(i)
         if redo:      # sympy re-evaluated parents while rewriting: compare the printer proper on the rewritten tree
@@ -848,12 +782,14 @@ def evaluate(ctx, cases, results, use_model=True):
         if r.get('status') != 'ok':
             ctx.count(kind='invalid-for-sympy')
             continue
-        rec = {'case': case, 'detail': {'tree': r['tree'], 'opt': r['opt'], 'kc': r['kc'], 'sympy': r['sympy'], 'impl': r['impl']}}
+        rec = {'case': case, 'detail': {'tree': r['tree'], 'opt': r['opt'], 'kc': r['kc'], 'opt_err': r['opt_err'], 'kc_err': r['kc_err'], 'rw_plain': r['rw_plain'], 'sympy': r['sympy'], 'impl': r['impl']}}
         impl = r['impl']
         nontrivial = sum(1 for _ in subtrees(r['tree'])) >= 4
         ctx.count(case_key=[r['tree']], nontrivial=nontrivial, kind=case['kind'].split(':')[0] + (':eval' if case['ev'] else ':uneval'))
         # stage D
-        if impl[0] == 'err' and impl[1] != 'ValueError':
+        if not r['sorted']:
+            ctx.hist['ill-sorted (correspondence only)'] = ctx.hist.get('ill-sorted (correspondence only)', 0) + 1
+        if impl[0] == 'err' and impl[1] != 'ValueError' and r['sorted']:
             ctx.violation('doprint raises %s (only ValueError is an accepted refusal): %s' % (impl[1], impl[2]), rec)
         for what, detail in r['oracle'][:1]:
             rec2 = {'case': case, 'detail': dict(rec['detail'], **detail)}
@@ -873,7 +809,7 @@ def evaluate(ctx, cases, results, use_model=True):
         printed_tree = to_bridge(r['opt'] if r['opt'] is not None else r['tree'])
         if r['opt'] is not None:
             twin = py_printable(printed_tree)
-            if bool(m[4]) != twin and (r['rewrite_plain'] or True):
+            if bool(m[4]) != twin:
                 ctx.tie_break('Coq guard [printable] = %s but its Python twin = %s' % (bool(m[4]), twin), rec)
         if status == 3:
             ctx.tie_break('model ran out of fuel', rec)
@@ -881,6 +817,8 @@ def evaluate(ctx, cases, results, use_model=True):
         if status == 2 or not r['plain']:
             ctx.hist['unmodelled'] = ctx.hist.get('unmodelled', 0) + 1
             continue
+        if impl[0] == 'err' and impl[1] != 'ValueError' and not r['sorted']:
+            continue          # SymPy itself rejects an operation on the ill-sorted tree
         ctx.corr_cases += 1
         if case['kind'] == 'function' and case['tree'][0] == 7 and case['tree'][2] == X and not r['rewrite_plain']:
             ctx.tie_break('trig rewriting pass of the model differs from sympy optimize(_optims) on f(symbol)', rec)
